@@ -14,5 +14,11 @@ def run(ctx: Ctx) -> None:
     S.wrapper_forward(ctx, cls)
     S.ctor_forward(ctx, cls + classes_of(ctx, "deepali.losses.base"))
     ctx.floor("E7.wrapper-forward", 20)
+    from ..tables import t16_losses
+    t16_losses.run_pointwise(ctx)
+    t16_losses.run_overlap(ctx)
+    t16_losses.run_weight_shapes(ctx)
+    ctx.floor("T16.mask", 6)
+    ctx.floor("T16.reduction", 6)
     e4(ctx, ["deepali.losses.functional", "deepali.losses.image", "deepali.losses.base"],
        only=lambda fi: not (fi.module.name == "deepali.losses.functional" and fi.qualname.split(".")[0] in FLOW_FUNCS))
